@@ -1,6 +1,377 @@
-/- C16 — property theorems.  Stub. -/
-import CBV.Model.C16
+/-
+C16 — property theorems (curve points, lengths and closest-parameter queries are mutually consistent).
+
+  T_C16_ends               DiscreteCurve.discretize(a, b) starts at get_point(a) and ends at get_point(b), either order
+  T_C16_ends_function      FunctionCurveBase.discretize(a, b, n) starts at f(a) and ends at f(b) (linspace end point exact)
+  T_C16_additive_polyline  a polyline length is additive over a split at any of its points (any distance oracle)
+  T_C16_additive           DiscreteCurve.get_length(a, c) = get_length(a, b) + get_length(b, c) for a ≤ b ≤ c
+  T_C16_order              … and does not depend on the order of the two parameters (symmetric distance)
+  T_C16_linear_length      InterpolatedCurveBase.get_length(a, b) = |b − a| · T for every curve whose distances
+                           inside a knot interval are proportional to the parameter difference (hence additive, symmetric,
+                           equal to the polyline through the break points; T = total length for chord-length parameters)
+  T_C16_segment_metric     the linear interpolant with chord-length parameters is such a curve (one knot interval)
+  T_C16_linear_exact       … so for the modelled linear interpolant (interp1d over chord-length knots) and every exact distance
+                           function: get_length(a, b) = |b − a| · total polyline length, no hypothesis on the curve left
+  T_C16_through            the linear interpolant passes through its defining points
+  T_C16_argmin             the discrete closest parameter is the first minimum of the distance over all points
+  T_C16_closest_linear     the closest parameter of the linear interpolant (exact projection) beats every point of every segment
+  T_C16_edge               a curve edge's written points are the discretisation minus its ends; the polyline through
+                           vertex 1, the written points and vertex 2 is the curve length between the two parameters
+Spline interpolation and scipy.optimize.minimize are oracles: validator checks only (see notes/C16.md).
+-/
+import CBV.Lemmas.C16
+import CBV.Lemmas.C08
+import Mathlib.Tactic.NormNum
 
 namespace CBV.C16
+
+open CBV.C08 (Vec sq_wit_unique)
+
+variable {α : Type}
+
+/-! ### end points -/
+
+theorem T_C16_ends (pts : List α) (a b : Rat) (l : List α) (h : discretize pts a b = some l) :
+    l.head? = getPoint pts a ∧ l.getLast? = getPoint pts b := by
+  unfold discretize at h
+  cases ha : checkParam pts.length a with
+  | none => simp [ha] at h
+  | some i =>
+    cases hb : checkParam pts.length b with
+    | none => simp [ha, hb] at h
+    | some j =>
+      simp only [ha, hb, Option.bind_eq_bind, Option.bind_some] at h
+      have hi := (checkParam_spec ha).1
+      have hj := (checkParam_spec hb).1
+      unfold getPoint
+      simp only [ha, hb, Option.bind_eq_bind, Option.bind_some]
+      split at h
+      · rename_i hgt
+        cases h
+        have hji : j ≤ i := checkParam_mono hb ha (le_of_lt hgt)
+        rw [List.head?_reverse, List.getLast?_reverse, slice_last pts j i hji hi, slice_head pts j i hji]
+        exact ⟨rfl, rfl⟩
+      · rename_i hle
+        cases h
+        have hij : i ≤ j := checkParam_mono ha hb (not_lt.mp hle)
+        rw [slice_last pts i j hij hj, slice_head pts i j hij]
+        exact ⟨rfl, rfl⟩
+
+/-- non-vacuity: reversed, non-integer parameters on a 5-point curve -/
+example : discretize [10, 11, 12, 13, 14] (7 / 2) 1 = some [13, 12, 11] ∧
+    getPoint [10, 11, 12, 13, 14] (7 / 2) = some 13 := by
+  constructor <;> decide +kernel
+
+theorem T_C16_ends_function (f : Rat → α) (a b : Rat) (n : Nat) (hn : 2 ≤ n) :
+    (discretizeF f a b n).head? = some (f a) ∧ (discretizeF f a b n).getLast? = some (f b) := by
+  unfold discretizeF linspace
+  obtain ⟨m, rfl⟩ : ∃ m, n = m + 2 := ⟨n - 2, by omega⟩
+  constructor
+  · simp [List.range_succ_eq_map]
+  · simp
+
+/-! ### additivity -/
+
+/-- splitting a polyline at any of its points: the two parts add up, whatever the distance oracle -/
+theorem T_C16_additive_polyline (d : α → α → Rat) (l1 : List α) (x : α) (l2 : List α) :
+    polyLenD d (l1 ++ x :: l2) = polyLenD d (l1 ++ [x]) + polyLenD d (x :: l2) :=
+  polyLenD_append d l1 x l2
+
+theorem T_C16_additive (d : α → α → Rat) (pts : List α) (a b c : Rat) (hab : a ≤ b) (hbc : b ≤ c)
+    (ha : 0 ≤ a) (hc : c ≤ ((pts.length : Int) - 1 : Int)) :
+    ∃ l1 l2, getLength d pts a b = some l1 ∧ getLength d pts b c = some l2 ∧
+      getLength d pts a c = some (l1 + l2) := by
+  obtain ⟨i, hi⟩ := checkParam_some (n := pts.length) ha (le_trans (le_trans hab hbc) hc)
+  obtain ⟨j, hj⟩ := checkParam_some (n := pts.length) (le_trans ha hab) (le_trans hbc hc)
+  obtain ⟨k, hk⟩ := checkParam_some (n := pts.length) (le_trans ha (le_trans hab hbc)) hc
+  have hij := checkParam_mono hi hj hab
+  have hjk := checkParam_mono hj hk hbc
+  have hkn := (checkParam_spec hk).1
+  obtain ⟨l1, x, l2, h1, h2, h3, _⟩ := slice_split pts i j k hij hjk hkn
+  refine ⟨polyLenD d (slice pts i j), polyLenD d (slice pts j k), ?_, ?_, ?_⟩
+  · simp [getLength, discretize, hi, hj, not_lt.mpr hab]
+  · simp [getLength, discretize, hj, hk, not_lt.mpr hbc]
+  · simp only [getLength, discretize, hi, hk, not_lt.mpr (le_trans hab hbc), Option.bind_eq_bind,
+      Option.bind_some, if_false, Option.map_some]
+    rw [h1, h2, h3, polyLenD_append]
+
+example : getLength (fun (x y : Int) => (if x < y then y - x else x - y : Int)) [0, 3, 4, 9] 0 (5 / 2) = some 4 ∧
+    getLength (fun (x y : Int) => (if x < y then y - x else x - y : Int)) [0, 3, 4, 9] (5 / 2) 3 = some 5 ∧
+    getLength (fun (x y : Int) => (if x < y then y - x else x - y : Int)) [0, 3, 4, 9] 0 3 = some 9 := by
+  refine ⟨?_, ?_, ?_⟩ <;> decide +kernel
+
+theorem T_C16_order (d : α → α → Rat) (hsym : ∀ x y, d x y = d y x) (pts : List α) (a b : Rat) :
+    getLength d pts a b = getLength d pts b a := by
+  unfold getLength discretize
+  cases ha : checkParam pts.length a with
+  | none => cases hb : checkParam pts.length b <;> simp
+  | some i =>
+    cases hb : checkParam pts.length b with
+    | none => simp
+    | some j =>
+      simp only [Option.bind_eq_bind, Option.bind_some]
+      rcases lt_trichotomy a b with h | h | h
+      · simp [not_lt.mpr (le_of_lt h), h, polyLenD_reverse d hsym]
+      · subst h
+        rw [ha] at hb; cases hb; rfl
+      · simp [not_lt.mpr (le_of_lt h), h, polyLenD_reverse d hsym]
+
+/-! ### interpolated curves -/
+
+/-- `get_length` of an interpolated curve in closed form.  `hlin`: inside one knot interval (no knot strictly between
+    `x` and `z`) the distance of two curve points is `(z − x)·T` — true for the linear interpolant with chord-length
+    parameters (`T_C16_segment_metric`, `T` = length of the whole polyline), false for a spline.
+    Consequences: additive over any split, independent of the parameter order, `get_length(0, 1) = T`. -/
+theorem T_C16_linear_length (d : α → α → Rat) (f : Rat → α) (ts : List Rat) (T : Rat)
+    (hsorted : ts.Pairwise (· < ·))
+    (hlin : ∀ x z, 0 ≤ x → x ≤ z → z ≤ 1 → (∀ t ∈ ts, ¬ (x < t ∧ t < z)) → d (f x) (f z) = (z - x) * T)
+    (a b : Rat) (ha : 0 ≤ a ∧ a ≤ 1) (hb : 0 ≤ b ∧ b ≤ 1) :
+    getLengthI d f ts a b = some ((max a b - min a b) * T) := by
+  unfold getLengthI
+  rw [if_pos ⟨ha.1, ha.2, hb.1, hb.2⟩]
+  congr 1
+  simp only [lengthParams]
+  set lo := min a b
+  set hi := max a b
+  have hle : lo ≤ hi := min_le_max
+  have hlo0 : 0 ≤ lo := le_min ha.1 hb.1
+  have hhi1 : hi ≤ 1 := max_le ha.2 hb.2
+  set F := ts.filter (fun t => decide (lo < t) && decide (t < hi)) with hF
+  have hFmem : ∀ t, t ∈ F ↔ t ∈ ts ∧ lo < t ∧ t < hi := by
+    intro t; simp [hF, List.mem_filter]
+  rcases eq_or_lt_of_le hle with heq | hlt
+  · -- both parameters coincide: no knot in between, a single segment of length 0
+    have hFnil : F = [] := by
+      apply List.eq_nil_iff_forall_not_mem.mpr
+      intro t ht
+      have := (hFmem t).mp ht
+      rw [← heq] at this
+      exact lt_irrefl _ (lt_trans this.2.1 this.2.2)
+    rw [hFnil]
+    show d (f lo) (f hi) + 0 = _
+    rw [hlin lo hi hlo0 hle hhi1 (by
+      intro t _ h; rw [← heq] at h; exact lt_irrefl _ (lt_trans h.1 h.2))]
+    ring
+  · have hsortedL : (lo :: F ++ [hi]).Pairwise (· < ·) := by
+      rw [List.cons_append, List.pairwise_cons]
+      constructor
+      · intro t ht
+        simp only [List.mem_append, List.mem_singleton] at ht
+        rcases ht with ht | rfl
+        · exact ((hFmem t).mp ht).2.1
+        · exact hlt
+      · rw [List.pairwise_append]
+        refine ⟨hsorted.filter _, by simp, ?_⟩
+        intro t ht u hu
+        simp only [List.mem_singleton] at hu
+        subst hu
+        exact ((hFmem t).mp ht).2.2
+    apply polyLenD_telescope d f T (lo :: F ++ [hi]) lo hi (by simp)
+      (by rw [show lo :: F ++ [hi] = (lo :: F) ++ [hi] from rfl, List.getLast?_append]; simp)
+    intro u v huv
+    have hu : u ∈ lo :: F ++ [hi] := (List.of_mem_zip huv).1
+    have hv : v ∈ (lo :: F ++ [hi]).tail := (List.of_mem_zip huv).2
+    have hv' : v ∈ lo :: F ++ [hi] := List.mem_of_mem_tail hv
+    have huv_lt : u < v := by
+      -- consecutive elements of a strictly increasing list
+      have := List.pairwise_iff_getElem.mp hsortedL
+      obtain ⟨n, hn⟩ := List.mem_iff_getElem.mp (show (u, v) ∈ _ from huv)
+      obtain ⟨hn1, hn2⟩ := hn
+      simp only [List.getElem_zip] at hn2
+      have hlen : n < ((lo :: F ++ [hi]).zip (lo :: F ++ [hi]).tail).length := hn1
+      simp only [List.length_zip, List.length_tail] at hlen
+      have e1 : (lo :: F ++ [hi])[n]'(by omega) = u := by
+        have := congrArg Prod.fst hn2; simpa using this
+      have e2 : (lo :: F ++ [hi]).tail[n]'(by simp only [List.length_tail]; omega) = v := by
+        have := congrArg Prod.snd hn2; simpa using this
+      rw [List.getElem_tail] at e2
+      rw [← e1, ← e2]
+      exact this n (n + 1) (by omega) (by omega) (by omega)
+    have hbounds : ∀ w ∈ lo :: F ++ [hi], lo ≤ w ∧ w ≤ hi := by
+      intro w hw
+      simp only [List.cons_append, List.mem_cons, List.mem_append, List.not_mem_nil, or_false] at hw
+      rcases hw with rfl | hw | rfl
+      · exact ⟨le_refl _, hle⟩
+      · have := (hFmem w).mp hw; exact ⟨le_of_lt this.2.1, le_of_lt this.2.2⟩
+      · exact ⟨hle, le_refl _⟩
+    apply hlin u v (le_trans hlo0 (hbounds u hu).1) (le_of_lt huv_lt) (le_trans (hbounds v hv').2 hhi1)
+    intro t ht hbetween
+    have htF : t ∈ F := (hFmem t).mpr ⟨ht, lt_of_le_of_lt (hbounds u hu).1 hbetween.1,
+      lt_of_lt_of_le hbetween.2 (hbounds v hv').2⟩
+    have htL : t ∈ lo :: F ++ [hi] := by simp [htF]
+    exact consec_no_between _ hsortedL u v huv t htL hbetween
+
+/-- non-vacuity: on the real line with `f = id·4` distances are proportional everywhere; three knots -/
+example : getLengthI (fun (x y : Rat) => if x ≤ y then y - x else x - y) (fun t => 4 * t) [0, 1 / 4, 1] (3 / 4) (1 / 8)
+    = some ((3 / 4 - 1 / 8) * 4) := by
+  norm_num [getLengthI, lengthParams, polyLenD, List.filter]
+
+/-- One knot interval of the linear interpolant with chord-length parameters: `(t1 − t0)·T` is the (witnessed) distance
+    `dseg` of the two interpolation points, and the (witnessed) distance `w` of the curve points at `x ≤ z` inside the
+    interval is `(z − x)·T`. -/
+theorem T_C16_segment_metric (p q : V) (t0 t1 x z dseg T w : Rat) (ht : t0 < t1) (hxz : x ≤ z)
+    (hT : (t1 - t0) * T = dseg) (hd : dseg * dseg = Vec.nsq (Vec.sub q p)) (hT0 : 0 ≤ T)
+    (hw0 : 0 ≤ w)
+    (hw : w * w = Vec.nsq (Vec.sub (lerpV p q ((z - t0) / (t1 - t0))) (lerpV p q ((x - t0) / (t1 - t0))))) :
+    w = (z - x) * T := by
+  have hne : t1 - t0 ≠ 0 := ne_of_gt (sub_pos.mpr ht)
+  apply sq_wit_unique hw0 (mul_nonneg (sub_nonneg.mpr hxz) hT0)
+  rw [hw]
+  have e : Vec.nsq (Vec.sub (lerpV p q ((z - t0) / (t1 - t0))) (lerpV p q ((x - t0) / (t1 - t0))))
+      = ((z - x) / (t1 - t0)) * ((z - x) / (t1 - t0)) * Vec.nsq (Vec.sub q p) := by
+    simp only [Vec.nsq, Vec.dot, Vec.sub, lerpV]
+    field_simp
+    ring
+  rw [e, ← hd, ← hT]
+  field_simp
+
+example : ((1 / 2 - 0 : Rat) * 10 = 5) ∧ ((5 : Rat) * 5 = Vec.nsq (Vec.sub (⟨3, 4, 0⟩ : V) ⟨0, 0, 0⟩)) := by
+  norm_num [Vec.nsq, Vec.dot, Vec.sub]
+
+/-- The flagship statement without hypotheses on the curve: for the *modelled* linear interpolant (scipy `interp1d` over the
+    chord-length parameters of exact, positive segment lengths `ds`) and any exact distance function `d`,
+    `get_length(a, b) = |b − a| · (total polyline length)`, for all parameters in [0, 1] in either order. -/
+theorem T_C16_linear_exact (ps : List V) (ds : List Rat) (hw : SegWitPos ps ds) (hlen : 2 ≤ ps.length)
+    (d : V → V → Rat) (hd : ∀ p q, 0 ≤ d p q ∧ d p q * d p q = dist2 p q)
+    (a b : Rat) (ha : 0 ≤ a ∧ a ≤ 1) (hb : 0 ≤ b ∧ b ≤ 1) :
+    getLengthI d (fun t => (lerp (knotParams ds) ps t).getD default) (knotParams ds) a b
+      = some ((max a b - min a b) * total ds) := by
+  have hT := total_pos ps ds hw hlen
+  obtain ⟨hok, _, hsorted, hlast, hlen'⟩ := knotsFrom_ok (total ds) hT ps ds 0 hw
+  rw [← knotParams_eq] at hok hsorted hlast hlen'
+  have hlast1 : (knotParams ds).getLast? = some 1 := by
+    rw [hlast]; congr 1; rw [zero_add, div_self (ne_of_gt hT)]
+  have hhead : (knotParams ds).head? = some 0 := by simp [knotParams]
+  apply T_C16_linear_length d _ (knotParams ds) (total ds) hsorted _ a b ha hb
+  intro x z hx hxz hz hno
+  obtain ⟨q0, q1, s0, s1, hs, hseg, hlx, hlz⟩ :=
+    lerp_same_segment (total ds) (knotParams ds) ps hok (by omega) x z 0 1 hhead hlast1 hx hxz hz hno
+  simp only [hlx, hlz, Option.getD_some]
+  apply T_C16_segment_metric q0 q1 s0 s1 x z ((s1 - s0) * total ds) (total ds) _ hs hxz rfl
+    (by rw [hseg]; rfl) (le_of_lt hT) (hd _ _).1
+  rw [(hd _ _).2, dist2_symm]; rfl
+
+example : SegWitPos [⟨0, 0, 0⟩, ⟨3, 4, 0⟩, ⟨3, 4, 12⟩] [5, 12] ∧ knotParams [5, 12] = [0, 5 / 17, 1] := by
+  constructor
+  · norm_num [SegWitPos, dist2, Vec.nsq, Vec.dot, Vec.sub]
+  · decide +kernel
+
+/-- the linear interpolant passes through its defining points (strictly increasing knot parameters) -/
+theorem T_C16_through : ∀ (ts : List Rat) (ps : List V), ts.length = ps.length → ts.Pairwise (· < ·) →
+    ∀ (i : Nat) (h1 : i < ts.length) (h2 : i < ps.length), 2 ≤ ts.length → lerp ts ps ts[i] = some ps[i]
+  | [], _, _, _, i, h1, _, _ => by simp at h1
+  | [_], _, _, _, _, _, _, h => by simp at h
+  | t0 :: t1 :: ts, [], hl, _, _, _, _, _ => by simp at hl
+  | t0 :: t1 :: ts, [_], hl, _, _, _, _, _ => by simp at hl
+  | t0 :: t1 :: ts, p0 :: p1 :: ps, hl, hs, i, h1, h2, _ => by
+      rw [List.pairwise_cons] at hs
+      obtain ⟨h0, hs'⟩ := hs
+      have h01 : t0 < t1 := h0 t1 (by simp)
+      have hne : t1 - t0 ≠ 0 := ne_of_gt (sub_pos.mpr h01)
+      match i, h1, h2 with
+      | 0, _, _ =>
+          simp only [List.getElem_cons_zero, lerp]
+          rw [if_pos ⟨le_refl _, le_of_lt h01⟩]
+          simp [lerpV]
+      | 1, _, _ =>
+          simp only [List.getElem_cons_succ, List.getElem_cons_zero, lerp]
+          rw [if_pos ⟨le_of_lt h01, le_refl _⟩]
+          simp [lerpV, div_self hne]
+      | i + 2, h1, h2 =>
+          have hlt : t1 < (t0 :: t1 :: ts)[i + 2] := by
+            rw [List.pairwise_cons] at hs'
+            simp only [List.getElem_cons_succ]
+            exact hs'.1 _ (List.getElem_mem _)
+          simp only [lerp]
+          rw [if_neg (by intro h; exact absurd h.2 (not_le.mpr hlt))]
+          have hlen : (t1 :: ts).length = (p1 :: ps).length := by simpa using hl
+          have h1' : i + 1 < (t1 :: ts).length := by simpa using h1
+          have h2' : i + 1 < (p1 :: ps).length := by simpa using h2
+          have := T_C16_through (t1 :: ts) (p1 :: ps) hlen hs' (i + 1) h1' h2' (by
+            simp only [List.length_cons] at h1' ⊢; omega)
+          simpa using this
+
+example : ([0, 1 / 3, 1] : List Rat).Pairwise (· < ·) ∧
+    lerp [0, 1 / 3, 1] [⟨0, 0, 0⟩, ⟨0, 1, 0⟩, ⟨2, 1, 0⟩] (1 / 3) = some ⟨0, 1, 0⟩ := by
+  constructor
+  · simp [List.pairwise_cons]; norm_num
+  · norm_num [lerp, lerpV]
+
+/-! ### closest parameter of a discrete curve -/
+
+/-- `get_closest_param` of a discrete curve returns an index of the curve whose point is at least as close as every
+    point of the curve, and strictly closer than every earlier one (the first minimum, as `np.argmin`) -/
+theorem T_C16_argmin (dist : α → Rat) (pts : List α) (hne : pts ≠ []) :
+    closestParam dist pts < pts.length ∧
+    ∀ j, j < pts.length →
+      (pts.map dist).getD (closestParam dist pts) 0 ≤ (pts.map dist).getD j 0 ∧
+      (j < closestParam dist pts → (pts.map dist).getD (closestParam dist pts) 0 < (pts.map dist).getD j 0) := by
+  unfold closestParam
+  cases hp : pts.map dist with
+  | nil => simp at hp; exact absurd hp hne
+  | cons x xs =>
+    have hlen : pts.length = (x :: xs).length := by rw [← hp]; simp
+    have := argminAux_spec (x :: xs) xs [x] 0 x rfl (by simp) rfl (by
+      intro j hj
+      have : j = 0 := by simpa using hj
+      subst this
+      exact ⟨by simp, fun h => absurd h (Nat.lt_irrefl _)⟩)
+    simp only [List.length_singleton] at this
+    rw [hlen]
+    exact this
+
+example : closestParam (fun (x : Rat) => (x - 3) * (x - 3)) [0, 2, 4, 5] = 1 := by
+  norm_num [closestParam, argmin, argminAux]
+
+/-- `LinearInterpolatedCurve.get_closest_param` (repaired: exact projection): the chosen segment exists and its clipped
+    projection point is at least as close to the query as *every* point of *every* segment of the polyline -/
+theorem T_C16_closest_linear (ps : List V) (q : V) (hlen : 2 ≤ ps.length) :
+    closestSeg ps q < (segments ps).length ∧
+    ∀ (j : Nat) (hj : j < (segments ps).length) (lam : Rat), 0 ≤ lam → lam ≤ 1 →
+      ((segments ps).map (fun s => segDist2 s.1 s.2 q)).getD (closestSeg ps q) 0
+        ≤ dist2 (lerpV (segments ps)[j].1 (segments ps)[j].2 lam) q := by
+  have hne : segments ps ≠ [] := by
+    match ps, hlen with
+    | _ :: _ :: _, _ => simp [segments]
+  obtain ⟨h1, h2⟩ := T_C16_argmin (fun s : V × V => segDist2 s.1 s.2 q) (segments ps) hne
+  refine ⟨h1, ?_⟩
+  intro j hj lam h0 hl
+  have := (h2 j hj).1
+  unfold closestSeg
+  unfold closestParam at this
+  refine le_trans this ?_
+  have hget : ((segments ps).map (fun s => segDist2 s.1 s.2 q)).getD j 0
+      = segDist2 (segments ps)[j].1 (segments ps)[j].2 q := by
+    simp [List.getD_eq_getElem?_getD, hj]
+  rw [hget]
+  exact seg_opt _ _ q lam h0 hl
+
+example : closestSeg [⟨0, 0, 0⟩, ⟨0, 1, 0⟩, ⟨2, 1, 0⟩] ⟨1, 3, 0⟩ = 1 ∧
+    closestParamL [0, 1 / 3, 1] [⟨0, 0, 0⟩, ⟨0, 1, 0⟩, ⟨2, 1, 0⟩] ⟨1, 3, 0⟩ = 2 / 3 ∧
+    closestParamL [0, 1 / 3, 1] [⟨0, 0, 0⟩, ⟨0, 1, 0⟩, ⟨2, 1, 0⟩] ⟨5, 0, 0⟩ = 1 := by
+  refine ⟨?_, ?_, ?_⟩ <;> decide +kernel
+
+/-! ### curve edges -/
+
+/-- A curve edge writes `discretize(param_start, param_end)[1:-1]`: together with the two end points (the curve points at
+    the parameters of the two vertices, by `T_C16_ends`) these are exactly the discretisation; hence the polyline through
+    vertex 1, the written points and vertex 2 (`SplineEdge.length`) is the curve length between the two parameters. -/
+theorem T_C16_edge (d : α → α → Rat) (disc : List α) (v1 v2 : α) (hlen : 2 ≤ disc.length)
+    (h1 : disc.head? = some v1) (h2 : disc.getLast? = some v2) :
+    v1 :: pointArray disc ++ [v2] = disc ∧ splineEdgeLength d v1 v2 (pointArray disc) = polyLenD d disc := by
+  have key : v1 :: pointArray disc ++ [v2] = disc := by
+    unfold pointArray
+    match disc, hlen, h1, h2 with
+    | x :: y :: rest, _, h1, h2 =>
+        simp only [List.head?_cons, Option.some.injEq] at h1
+        subst h1
+        simp only [List.tail_cons]
+        have hne : (y :: rest) ≠ [] := by simp
+        have hl : (y :: rest).getLast? = some v2 := by simpa [List.getLast?_cons_cons] using h2
+        have := List.dropLast_append_getLast? v2 (by simpa using hl)
+        simpa using this
+  exact ⟨key, by unfold splineEdgeLength; rw [key]⟩
+
+example : pointArray [1, 2, 3, 4, 5] = [2, 3, 4] := rfl
 
 end CBV.C16
